@@ -501,7 +501,7 @@ func runC06(ctx *core.Ctx) {
 	streamImport(ctx)
 	streamApplyExhaustive(ctx)
 	ctx.Res.Exhaustive = true
-	for i := 0; i < ctx.Pick(2000, 60000); i++ {
+	for i := 0; i < ctx.Pick(2000, 20000); i++ {
 		ctx.Add("c06.applyInclude", randomApply(ctx, 1+ctx.Rng.Intn(3)))
 	}
 	streamApplyMalformed(ctx)
@@ -706,7 +706,7 @@ func streamApplyExhaustive(ctx *core.Ctx) {
 
 // streamApplyMalformed: include sections and target sections of every node kind.
 func streamApplyMalformed(ctx *core.Ctx) {
-	for i := 0; i < ctx.Pick(600, 6000); i++ {
+	for i := 0; i < ctx.Pick(600, 3000); i++ {
 		a := randomApply(ctx, 1)
 		model := core.DecodeVal(a.Model).(map[string]any)
 		k := core.Kinds[ctx.Rng.Intn(len(core.Kinds))]
@@ -774,7 +774,7 @@ func svc(image string) map[string]any { return map[string]any{"image": image} }
 func streamPaste(ctx *core.Ctx) {
 	// 1. partitions of a model into a main file and included files (nesting ≤ 3, sub-directories, project_directory,
 	//    env_file, .env, short/long syntax, override files, diamonds)
-	for i := 0; i < ctx.Pick(1200, 40000); i++ {
+	for i := 0; i < ctx.Pick(1200, 12000); i++ {
 		g := newGen(ctx, true)
 		depth := 1 + ctx.Rng.Intn(3)
 		main, projDir := "compose.yaml", ""
@@ -836,7 +836,7 @@ func streamPaste(ctx *core.Ctx) {
 	}
 
 	// 3. conflicting and identical redefinitions
-	for i := 0; i < ctx.Pick(60, 600); i++ {
+	for i := 0; i < ctx.Pick(60, 300); i++ {
 		for _, kind := range c06lib.Kinds5 {
 			g := newGen(ctx, true)
 			d1, d2 := diffPair(ctx.Rng, kind)
